@@ -127,7 +127,6 @@ func cmdUnit(args []string) int {
 	return 0
 }
 
-
 func cmdSSA(args []string) int {
 	w, err := LoadWorld("/repo", repoPatterns())
 	if err != nil {
